@@ -188,7 +188,7 @@ func (in *Interp) query(extra []*Term, fallback time.Duration) (Result, *Model) 
 		var res Result = Unknown
 		var vals map[string]uint64
 		hard := in.hardArith(all)
-		if hard {
+		if hard && !in.wideDivision(all) {
 			// cheap attempt on the bit-vector pipe first (small ranges bit-blast instantly)
 			res, vals = in.solver.CheckSetTimeout(all, vars, 250)
 		}
@@ -292,3 +292,26 @@ func (in *Interp) hardArith(ts []*Term) bool {
 }
 
 var intDiff = os.Getenv("SYMGO_INTDIFF") != ""
+
+// wideDivision: a 64-bit division/remainder occurs (bit-blasting is hopeless; go to the integer translation at once).
+func (in *Interp) wideDivision(ts []*Term) bool {
+	seen := map[int]bool{}
+	var stack []*Term
+	stack = append(stack, ts...)
+	for len(stack) > 0 {
+		t := stack[len(stack)-1]
+		stack = stack[:len(stack)-1]
+		if t == nil || seen[t.id] {
+			continue
+		}
+		seen[t.id] = true
+		switch t.op {
+		case OpUDiv, OpSDiv, OpURem, OpSRem:
+			if t.w >= 64 && in.tb.rangeOf(t.a).hi > 1<<20 {
+				return true
+			}
+		}
+		stack = append(stack, t.a, t.b, t.c)
+	}
+	return false
+}
